@@ -53,19 +53,20 @@ Fixpoint writes (l : list Z) (k : nat) (blk : list Z) : list Z :=
   | v :: t => writes t (S k) (if v =? 0 then blk else upd (order k) v blk)
   end.
 
-Lemma dec_ac_zrls z : c_enc ac 240 = Some z -> forall n fuel kd blk more,
+Lemma dec_ac_zrls z : c_enc ac 240 = Some z -> forall n fuel kd,
   (kd + 16 * n < 64)%nat -> (65 <= fuel + kd)%nat ->
-  exists fuel', (65 <= fuel' + (kd + 16 * n))%nat /\
+  exists fuel', (65 <= fuel' + (kd + 16 * n))%nat /\ forall blk more,
     dec_ac ac fuel kd blk (rep_bits n z ++ more) = dec_ac ac fuel' (kd + 16 * n)%nat blk more.
 Proof.
-  intros Hz. induction n as [|n IH]; intros fuel kd blk more Hk Hf.
-  - exists fuel. rewrite Nat.mul_0_r, Nat.add_0_r. cbn [rep_bits app]. split; [lia|reflexivity].
-  - destruct fuel as [|f]; [lia|]. cbn [rep_bits]. rewrite <- app_assoc. cbn [dec_ac].
+  intros Ez. induction n as [|n IHn]; intros fuel kd Hk Hf.
+  - exists fuel. split; [lia|]. intros. rewrite Nat.mul_0_r, Nat.add_0_r. reflexivity.
+  - destruct fuel as [|f]; [lia|].
+    destruct (IHn f (kd + 16)%nat) as [fuel' [Hf' He]]; [lia|lia|].
+    exists fuel'. split; [lia|]. intros blk more. cbn [rep_bits]. rewrite <- app_assoc. cbn [dec_ac].
     destruct (64 <=? kd)%nat eqn:E; [apply Nat.leb_le in E; lia|].
-    rewrite (c_ok ac 240 z _ Hz). change (240 / 16) with 15. change (240 mod 16) with 0.
-    cbn [Z.eqb]. change (15 =? 15) with true. cbv iota.
-    destruct (IH f (kd + 16)%nat blk more) as [fuel' [Hf' He]]; [lia|lia|].
-    exists fuel'. split; [lia|]. rewrite He. f_equal. lia.
+    rewrite (c_ok ac 240 z _ Ez). change (240 / 16) with 15. change (240 mod 16) with 0.
+    change (0 =? 0) with true. change (15 =? 15) with true. cbv iota.
+    rewrite He. f_equal. lia.
 Qed.
 
 Lemma band_roundtrip : forall l r kd k blk fuel bits r' rest,
@@ -93,30 +94,13 @@ Proof.
                  forall more, dec_ac ac fuel kd blk (rep_bits (Z.to_nat (r / 16)) z ++ more)
                               = dec_ac ac fuel1 (kd + 16 * Z.to_nat (r / 16))%nat blk more).
       { destruct (r >=? 16) eqn:E16.
-        - assert (Hlt : (kd + 16 * Z.to_nat (r / 16) < 64)%nat).
+        - apply Z.geb_le in E16.
+          assert (Hlt : (kd + 16 * Z.to_nat (r / 16) < 64)%nat).
           { assert (16 * (r / 16) <= r) by (apply Z.mul_div_le; lia).
             assert (0 <= r / 16) by (apply Z.div_pos; lia). lia. }
-          assert (Hex : forall more, exists fuel', (65 <= fuel' + (kd + 16 * Z.to_nat (r / 16)))%nat /\
-               dec_ac ac fuel kd blk (rep_bits (Z.to_nat (r / 16)) z ++ more) =
-               dec_ac ac fuel' (kd + 16 * Z.to_nat (r / 16))%nat blk more)
-            by (intros more; apply dec_ac_zrls; auto).
-          (* fuel' does not depend on more: redo with explicit witness *)
-          clear Hex.
-          assert (G : forall n fuel kd, (kd + 16 * n < 64)%nat -> (65 <= fuel + kd)%nat ->
-                     exists fuel', (65 <= fuel' + (kd + 16 * n))%nat /\ forall blk more,
-                       dec_ac ac fuel kd blk (rep_bits n z ++ more) = dec_ac ac fuel' (kd + 16 * n)%nat blk more).
-          { clear - Ez E16. induction n as [|n IHn]; intros fuel kd Hk Hf.
-            - exists fuel. split; [lia|]. intros. rewrite Nat.mul_0_r, Nat.add_0_r. reflexivity.
-            - destruct fuel as [|f]; [lia|].
-              destruct (IHn f (kd + 16)%nat) as [fuel' [Hf' He]]; [lia|lia|].
-              exists fuel'. split; [lia|]. intros blk more. cbn [rep_bits]. rewrite <- app_assoc. cbn [dec_ac].
-              destruct (64 <=? kd)%nat eqn:E; [apply Nat.leb_le in E; lia|].
-              rewrite (c_ok ac 240 z _ Ez). change (240 / 16) with 15. change (240 mod 16) with 0.
-              change (0 =? 0) with true. change (15 =? 15) with true. cbv iota.
-              rewrite He. f_equal. lia. }
-          destruct (G (Z.to_nat (r / 16)) fuel kd Hlt Hf) as [fuel1 [H1 H2]].
+          destruct (dec_ac_zrls z Ez (Z.to_nat (r / 16)) fuel kd Hlt Hf) as [fuel1 [H1 H2]].
           exists fuel1. split; [exact H1|]. intros more. apply H2.
-        - apply Z.geb_leb in E16. apply Z.leb_gt in E16.
+        - rewrite Z.geb_leb in E16. apply Z.leb_gt in E16.
           rewrite Z.div_small by lia. exists fuel. split; [cbn; lia|]. intros more. cbn [Z.to_nat rep_bits app].
           f_equal. lia. }
       destruct Hzr as [fuel1 [Hf1 Hzr]].
@@ -129,9 +113,9 @@ Proof.
       rewrite (c_ok ac _ c _ Ec).
       pose proof (Z.mod_pos_bound r 16 ltac:(lia)) as Hm.
       replace ((r mod 16 * 16 + nb) / 16) with (r mod 16).
-      2:{ symmetry. apply Z.div_unique with (r := nb); lia. }
+      2:{ apply Z.div_unique with (r := nb); lia. }
       replace ((r mod 16 * 16 + nb) mod 16) with nb.
-      2:{ symmetry. apply Z.mod_unique with (q := r mod 16); lia. }
+      2:{ apply Z.mod_unique with (q := r mod 16); lia. }
       destruct (nb =? 0) eqn:En0; [apply Z.eqb_eq in En0; lia|].
       destruct (mag_roundtrip v (rest0 ++ rest) Ev) as [x [Hx Hext]]. fold nb in Hx, Hext.
       rewrite Hx. rewrite Hext. rewrite Hkk.
